@@ -90,8 +90,8 @@ def dclass(a):
         return "complex64"
     if dt.kind == "c":
         return "complex"
-    if dt.kind in "iu":
-        return "int"
+    if dt.kind in "iub":
+        return str(dt)
     if dt == np.float32:
         return "float32"
     return "real"
@@ -253,8 +253,13 @@ def corr_tol(d):
     y = desc_arr(d["y"])
     nd = x.ndim
     N = x.shape[d["axis"]]
-    mx = float(np.max(np.abs(x))) if x.size else 0.0
-    my = float(np.max(np.abs(y))) if y.size else 0.0
+    xf = x.astype(np.complex128)
+    yf = y.astype(np.complex128)
+    if d["db"] and d["fn"] in ("crosscov", "autocov"):
+        xf = xf - np.mean(xf, axis=d["axis"], keepdims=True)
+        yf = yf - np.mean(yf, axis=d["axis"], keepdims=True)
+    mx = float(np.max(np.abs(xf))) if x.size else 0.0
+    my = float(np.max(np.abs(yf))) if y.size else 0.0
     if d["fn"] in ("autocov", "autocorr"):
         my = mx
     single = is_single(x.dtype) or (d["fn"] in ("crosscov", "crosscorr") and is_single(y.dtype))
@@ -350,23 +355,51 @@ def pick_scale(rng, dtype):
     s = rng.choice(SCALES)
     if dtype in ("float32", "complex64"):
         s = max(-20, min(20, s))
-    if dtype == "int64":
-        s = max(0, min(20, s))
+    if is_int(dtype):
+        s = 0
     return s
 
 
 def gen_values(rng, shape, dtype, scale=0):
     a = gen_values0(rng, shape, dtype)
     if scale:
-        a = (a * (2 ** scale if dtype == "int64" else 2.0 ** scale)).astype(dtype)
+        a = (a * 2.0 ** scale).astype(dtype)
     return a
+
+
+INT_DTYPES = ["int8", "uint8", "int16", "uint16", "int32", "uint32", "int64", "bool"]
+ALL_DTYPES = ["float64", "float64", "complex128", "complex128", "float32", "complex64"] + INT_DTYPES
+
+
+def is_int(dtype):
+    return np.dtype(dtype).kind in "iub"
+
+
+def gen_ints(rng, n, dtype, mode=None):
+    """integer data: close to the limits of the dtype (products / sums overflow the narrow type but
+    not the floating-point computation the definitions mean), or small"""
+    if dtype == "bool":
+        v = [rng.random() < 0.5 for _ in range(n)]
+        if n >= 2 and len(set(v)) == 1:
+            v[0] = not v[0]
+        return np.array(v, dtype=bool)
+    info = np.iinfo(dtype)
+    hi, lo = min(info.max, 2 ** 40), max(info.min, -2 ** 40)
+    mode = mode or rng.choice(["top", "top", "both", "small"])
+    if mode == "top" or (mode == "both" and lo == 0):
+        v = [rng.randint(hi - hi // 8, hi) for _ in range(n)]
+    elif mode == "both":
+        v = [rng.choice([rng.randint(lo, lo - lo // 8), rng.randint(hi - hi // 8, hi)]) for _ in range(n)]
+    else:
+        v = [rng.randint(max(lo, -9), 9) for _ in range(n)]
+    return np.array(v, dtype=dtype)
 
 
 def gen_values0(rng, shape, dtype):
     n = int(np.prod(shape))
     r = rng.random()
-    if dtype == "int64":
-        return np.array([rng.randint(-9, 9) for _ in range(n)], dtype=np.int64).reshape(shape)
+    if is_int(dtype):
+        return gen_ints(rng, n, dtype).reshape(shape)
 
     def real():
         if r < 0.3:
@@ -398,7 +431,7 @@ def gen_corr(rng, maxn, force_n=None):
     shape, axis = gen_shape(rng, maxn)
     if force_n:
         shape, axis = [force_n], rng.choice([0, -1])
-    dts = ["float64", "float64", "complex128", "complex128", "int64", "float32", "complex64"]
+    dts = ALL_DTYPES
     dx = rng.choice(dts)
     dy = dx if rng.random() < 0.7 else rng.choice(dts)
     fn = rng.choice(["crosscov", "crosscov", "crosscorr", "autocov", "autocorr"])
@@ -420,13 +453,13 @@ def gen_corr_big(rng, N, oracle_only=True):
     shape[ax] = N
     axis = ax if rng.random() < 0.5 else ax - nd
     if oracle_only:
-        dx = rng.choice(["float64", "complex128", "float64", "complex128", "float32", "complex64", "int64"])
+        dx = rng.choice(ALL_DTYPES)
         x = gen_values(rng, shape, dx, pick_scale(rng, dx))
         y = gen_values(rng, shape, dx, pick_scale(rng, dx))
     else:
         shape, axis = [N], 0
-        x = gen_values(rng, shape, "int64")
-        y = gen_values(rng, shape, "int64")
+        x = gen_ints(rng, N, "int64", "small")
+        y = gen_ints(rng, N, "int64", "small")
     return {"k": "corr", "fn": rng.choice(["crosscov", "crosscorr", "autocov", "autocorr"]), "axis": axis,
             "al": rng.random() < 0.5, "db": (rng.random() < 0.5) if oracle_only else False, "nm": rng.random() < 0.5,
             "x": arr_desc(x), "y": arr_desc(y), "v": rng.choice(ARRAY_VARIANTS), "oracle_only": oracle_only}
@@ -477,6 +510,22 @@ def oracle_seed(d, out):
 def gen_seed(rng, maxn, N=None):
     N = N or rng.choice([2, 3, 4, 5, 8, rng.randint(2, maxn), rng.randint(2, maxn)])
     rows = rng.randint(1, 4)
+    if rng.random() < 0.35:
+        # integer dtypes near their limits: squares and dot products overflow the narrow type
+        dt = rng.choice(INT_DTYPES)
+        seed = gen_ints(rng, N, dt)
+        while np.ptp(seed.astype(float)) == 0:
+            seed = gen_ints(rng, N, dt, "small" if dt != "bool" else None)
+        tshape = [rows, N] if rng.random() < 0.8 else [N]
+        rws = []
+        for _ in range(tshape[0] if len(tshape) == 2 else 1):
+            r = gen_ints(rng, N, dt)
+            while np.ptp(r.astype(float)) == 0:
+                r = gen_ints(rng, N, dt, "small" if dt != "bool" else None)
+            rws.append(r)
+        target = np.array(rws, dtype=dt).reshape(tshape)
+        return {"k": "seed", "seed": arr_desc(seed), "target": arr_desc(target),
+                "v": rng.choice(["plain", "plain", "fortran", "strided", "negstride", "readonly", "plus0"])}
     sc = pick_scale(rng, "float64")
     seed = gen_values(rng, [N], "float64")
     if np.ptp(seed) == 0:
@@ -507,8 +556,11 @@ def case_zscore(d):
     out = np.asarray(utils.zscore(xv, d["axis"]) if v == "positional" else utils.zscore(xv, axis=d["axis"]))
     if not np.array_equal(np.asarray(xv), x):
         raise AssertionError("zscore modified its input")
-    stds = np.std(x, axis=d["axis"])          # the library kernel, called separately
-    rtol, atol = 1e-9, 1e-9 * (1.0 + math.sqrt(x.shape[d["axis"]]))
+    single = is_single(x.dtype)
+    # the library kernel, called separately (in double precision also for single-precision data)
+    stds = np.std(x.astype(np.complex128) if single else x, axis=d["axis"])
+    rtol = 1e-4 if single else 1e-9
+    atol = rtol * (1.0 + math.sqrt(x.shape[d["axis"]]))
     coq = "(KZscore %s %s %s %s %s %s %s)" % (nlist(x.shape), zlit(d["axis"]), flit(rtol), flit(atol), fclist(x), fl(stds), fclist(out))
     c = Case(coq, {"d": d, "observed": arr_desc(out)}, "zscore/%s/%dd" % (dclass(x), x.ndim))
     c.out = out
@@ -527,9 +579,10 @@ def oracle_zscore(d, out):
         mr = sum(fo[j][0] for j in idx) / n
         mi = sum(fo[j][1] for j in idx) / n
         var = sum(fo[j][0] ** 2 + fo[j][1] ** 2 for j in idx) / n
-        if abs(float(mr)) > 1e-9 or abs(float(mi)) > 1e-9:
+        tol = 1e-4 if is_single(x.dtype) else 1e-9
+        if abs(float(mr)) > tol or abs(float(mi)) > tol:
             return Fail(key, "z-scored lane (outer %d, inner %d) along axis %d has mean != 0" % (o, i, d["axis"]), float(mr), 0.0)
-        if abs(float(var) - 1.0) > 1e-9:
+        if abs(float(var) - 1.0) > tol:
             return Fail(key, "z-scored lane (outer %d, inner %d) along axis %d has variance != 1" % (o, i, d["axis"]), float(var), 1.0)
     return None
 
@@ -542,9 +595,9 @@ def case_pct(d):
     out = np.asarray(utils.percent_change(xv, d["axis"]) if v == "positional" else utils.percent_change(xv, ax=d["axis"]))
     if not np.array_equal(np.asarray(xv), x):
         raise AssertionError("percent_change modified its input")
-    m = np.mean(x, d["axis"])
-    scale = float(np.max(np.abs(x))) / float(np.min(np.abs(m)))
-    rtol, atol = 1e-9, 1e-7 * (1.0 + scale)
+    m = np.mean(x.astype(np.complex128), d["axis"])
+    scale = float(np.max(np.abs(x.astype(np.complex128)))) / float(np.min(np.abs(m)))
+    rtol, atol = (1e-4, 1e-3 * (1.0 + scale)) if is_single(x.dtype) else (1e-9, 1e-7 * (1.0 + scale))
     coq = "(KPct %s %s %s %s %s %s)" % (nlist(x.shape), zlit(d["axis"]), flit(rtol), flit(atol), fclist(x), fclist(out))
     c = Case(coq, {"d": d, "observed": arr_desc(out)}, "percent_change/%s/%dd" % (dclass(x), x.ndim))
     c.out = out
@@ -558,8 +611,8 @@ def oracle_pct(d, out):
     key = "C20/percent_change/%s" % dclass(x)
     if out.shape != x.shape:
         return Fail(key, "percent_change changed the shape", list(out.shape), list(x.shape))
-    m = np.mean(x, d["axis"])
-    tol = 1e-7 * (1.0 + float(np.max(np.abs(x))) / float(np.min(np.abs(m))))
+    m = np.mean(x.astype(np.complex128), d["axis"])
+    tol = (1e-3 if is_single(x.dtype) else 1e-7) * (1.0 + float(np.max(np.abs(x.astype(np.complex128)))) / float(np.min(np.abs(m))))
     fo = cfr(out)
     for o, i, idx in lanes(list(x.shape), d["axis"]):
         n = len(idx)
@@ -575,7 +628,9 @@ def gen_norm(rng, maxn, which, N=None):
     shape, axis = gen_shape(rng, maxn)
     if N:
         shape[axis] = N
-    dt = rng.choice(["float64", "float64", "complex128", "int64"])
+    dt = rng.choice(["float64", "float64", "complex128", "float32"] + INT_DTYPES)
+    if is_int(dt):
+        return gen_norm_int(rng, shape, axis, dt, which)
     x = gen_values(rng, shape, dt)
     # lanes must not be constant (zscore) / have zero mean (percent change): the guards of the theorems
     nd = len(shape)
@@ -586,9 +641,35 @@ def gen_norm(rng, maxn, which, N=None):
         if which == "zscore" and np.ptp(lane.real) == 0 and np.ptp(lane.imag) == 0:
             lane[0] += 1
         if which == "pct" and abs(np.mean(lane)) < 0.25:
-            lane += 2 if dt == "int64" else 2.5
+            lane += 2.5
     sc = pick_scale(rng, dt)
-    x = (x * (2 ** sc if dt == "int64" else 2.0 ** sc)).astype(dt)      # exact: offsets and spreads scale together
+    x = (x * 2.0 ** sc).astype(dt)      # exact: offsets and spreads scale together
+    return {"k": which, "axis": axis, "x": arr_desc(x), "v": rng.choice(ARRAY_VARIANTS + ["list"])}
+
+
+def gen_norm_int(rng, shape, axis, dt, which):
+    """integer lanes (raw scanner data are int16 around 1000..30000): non-constant for zscore, mean far from 0
+    for percent_change; `100 * x` and `x * x` overflow the narrow dtypes"""
+    nd = len(shape)
+    ax = axis + nd if axis < 0 else axis
+    N = shape[ax]
+    x = np.zeros(shape, dtype=dt)
+    xm = np.moveaxis(x, ax, -1)
+    for idx in np.ndindex(xm.shape[:-1]):
+        while True:
+            mode = rng.choice(["top", "top", "mid", "small"]) if dt != "bool" else None
+            if mode == "mid":
+                info = np.iinfo(dt)
+                base = min(info.max, 2 ** 40) // rng.choice([3, 30, 60])
+                lane = np.array([base + rng.randint(-(base // 10) - 1, base // 10 + 1) for _ in range(N)], dtype=dt)
+            elif mode == "small":
+                lane = np.array([rng.randint(1, 9) for _ in range(N)], dtype=dt)
+            else:
+                lane = gen_ints(rng, N, dt, mode)
+            lf = lane.astype(float)
+            if np.ptp(lf) > 0 and abs(np.mean(lf)) >= 0.25 * np.max(np.abs(lf)):
+                break
+        xm[idx] = lane
     return {"k": which, "axis": axis, "x": arr_desc(x), "v": rng.choice(ARRAY_VARIANTS + ["list"])}
 
 
@@ -607,14 +688,15 @@ def case_xcorr(d):
     data = desc_arr(d["data"])
     nch, N = data.shape
     out = call_xcorr(d, norm)
-    lib = [np.correlate(data[i], data[j], mode="full") for i in range(nch) for j in range(i, nch)]
+    fdata = data.astype(float)            # the analyzer correlates in floating point
+    lib = [np.correlate(fdata[i], fdata[j], mode="full") for i in range(nch) for j in range(i, nch)]
     rows = out.reshape(nch * nch, -1)
     if norm:
         cc = np.corrcoef(data)
         atol = 1e-9                           # normalised values are O(1) whatever the data scale
         coq = "(KXcorrNorm %s %s %s %s %s %s)" % (nlit(nch), nlit(N), flit(atol), llit([fl(r) for r in lib]), fl(cc), llit([fl(r) for r in rows]))
     else:
-        atol = 1e-9 * N * float(np.max(np.abs(data))) ** 2      # relative to the data scale
+        atol = 1e-9 * N * float(np.max(np.abs(fdata))) ** 2      # relative to the data scale
         coq = "(KXcorr %s %s %s %s %s)" % (nlit(nch), nlit(N), flit(atol), llit([fl(r) for r in lib]), llit([fl(r) for r in rows]))
     c = Case(coq, {"d": d, "observed": arr_desc(out)}, "%s/nch=%d" % (d["k"], nch))
     c.out = out
@@ -632,6 +714,7 @@ def oracle_xcorr(d, out):
     fx = [[(fr(v), F(0)) for v in data[p]] for p in range(nch)]
     name = "CorrelationAnalyzer.%s" % d["k"]
     if not norm:
+        data = data.astype(float)
         scale = N * float(np.max(np.abs(data))) ** 2
         big = N > 64
         for p in range(nch):
@@ -674,6 +757,23 @@ def oracle_xcorr(d, out):
 def gen_xcorr(rng, maxn, which, N=None):
     nch = rng.randint(2, 4) if not N else 2
     N = N or rng.choice([2, 3, 4, 5, 8, rng.randint(2, maxn)])
+    if rng.random() < 0.4:
+        # integer channels near the limits of their dtype (np.correlate in that dtype would wrap around)
+        dt = rng.choice(INT_DTYPES)
+        rows = []
+        for _ in range(nch):
+            r = gen_ints(rng, N, dt, None if which == "xcorr" or dt == "bool" else rng.choice(["top", "top", "both"]))
+            while np.ptp(r.astype(float)) == 0 or (which == "xcorr_norm" and abs(float(np.sum(r.astype(float)))) == 0):
+                r = gen_ints(rng, N, dt)
+            rows.append(r)
+        data = np.array(rows, dtype=dt)
+        if which == "xcorr_norm":
+            f = data.astype(float)
+            z = [abs(float(np.dot(f[i], f[j]))) for i in range(nch) for j in range(i, nch)]
+            if min(z) <= 1e-3 * max(z):       # the zero-lag entries the code divides by must not vanish
+                data = np.abs(f).astype(dt) if dt != "bool" else np.ones_like(data) ^ np.eye(nch, N, dtype=bool)
+        return {"k": which, "data": arr_desc(data), "dt": rng.choice([1.0, 0.5, 2.0]),
+                "v": rng.choice(["plain", "plain", "fortran", "strided", "negstride", "readonly", "plus0"])}
     data = gen_values(rng, [nch, N], "float64")
     for r in data:
         if np.ptp(r) == 0:
@@ -693,8 +793,8 @@ def case_corrspec(d):
     x2 = desc_arr(d["x2"])
     v = d.get("v", "plain")
     f, ccn = cohere.correlation_spectrum(as_variant(x1, v), as_variant(x2, v), norm=d["norm"])
-    X1 = fftpack.fft(x1 - np.mean(x1))
-    X2 = fftpack.fft(x2 - np.mean(x2))
+    X1 = fftpack.fft(x1.astype(float) - np.mean(x1.astype(float)))
+    X2 = fftpack.fft(x2.astype(float) - np.mean(x2.astype(float)))
     n = len(x1)
     coq = "(KCorrSpec %s %s %s %s %s %s %s)" % (nlit(n), blit(d["norm"]), fl(x1), fl(x2), fclist(X1), fclist(X2), fl(ccn))
     c = Case(coq, {"d": d, "observed": arr_desc(ccn)}, "correlation_spectrum/norm=%s/%s" % (d["norm"], "even" if n % 2 == 0 else "odd"))
@@ -723,6 +823,16 @@ def oracle_corrspec(d, out):
 
 def gen_corrspec(rng, maxn, n=None):
     n = n or rng.choice([2, 3, 4, 5, 8, 9, rng.randint(2, maxn), rng.randint(2, maxn)])
+    if rng.random() < 0.35:
+        dt = rng.choice(INT_DTYPES)
+        xs = []
+        for _ in range(2):
+            x = gen_ints(rng, n, dt)
+            while np.ptp(x.astype(float)) == 0:
+                x = gen_ints(rng, n, dt, "small" if dt != "bool" else None)
+            xs.append(x)
+        return {"k": "corrspec", "norm": rng.random() < 0.4, "x1": arr_desc(xs[0]), "x2": arr_desc(xs[1]),
+                "v": rng.choice(["plain", "plain", "strided", "negstride", "readonly", "plus0"])}
     x1 = gen_values(rng, [n], "float64")
     x2 = gen_values(rng, [n], "float64") + 0.5 * x1
     for x in (x1, x2):
